@@ -19,7 +19,7 @@ LEVEL_TEXT = ("For both variants, sizes 1..33 (quick) / ..70 (thorough) incl. si
               "working screen as a unit impulse, every innovation as a unit draw) and must satisfy A Czz = Cxz and A Czz A^T + B B^T = Cxx "
               "for the theoretical covariance at the true pixel separations, in a structure-function metric that exposes 1 % geometry "
               "errors; linearity, zero offset, the Fried constant-shift law, and conformance of naturally generated rows to the observed "
-              "map; with integer / None seeds a ledger of every Gaussian draw made by the generators the library creates shows that no number is used twice (initial screen vs rows). Screens come in families sharing geometry but differing in pixel scale, r0 or L0 inside one process. Exploration.")
+              "map; with integer / None seeds a ledger of every Gaussian draw made by the generators the library creates shows that no number is used twice (initial screen vs rows). Screens come in families sharing geometry but differing in pixel scale, r0 or L0 inside one process. Live objects whose public build steps (makeAMatrix, makeBMatrix) are run again must keep the observed row map and innovation covariance. Exploration.")
 LEVEL_NOTE = ("Trusted: aomon/oracles/vk.py. Tolerances scale with the condition number of the stencil covariance (100 / 1000 eps64 cond "
               "B(0); measured 1.1 / 13.5 in those units up to cond 2.5e11). Constructions that raise LinAlgError are outside the quantifier and only counted.")
 RULE = "case = (variant, nx, columns | length factor, pixel scale, r0, L0, family member); non-trivial always; distinct by parameters"
@@ -289,6 +289,42 @@ def check_innovations_fresh(ctx, aotools, variant, nx, ps, r0, L0, extra, rng):
               "%d of %d Gaussian draws occur twice (e.g. %r): a row's innovation repeats numbers already used" % (n, led.n_draws(), ex), wit)
 
 
+def check_rederived(ctx, aotools, variant, nx, ps, r0, L0, extra, rng):
+    """A live object whose public build steps are run again (makeAMatrix / makeBMatrix, in the constructor's order, without re-making the
+    covariances): the observed law of the next row -- M and B B^T -- must be what it was.  Objects without these methods are not judged."""
+    from scipy import linalg
+    gen = ScriptedGenerator([])
+    try:
+        scr = build(aotools, variant, nx, ps, r0, L0, extra, gen)
+    except (linalg.LinAlgError, np.linalg.LinAlgError):
+        return
+    steps = [getattr(scr, n, None) for n in ("makeAMatrix", "makeBMatrix")]
+    if not all(callable(m) for m in steps):
+        ctx.count("rederivation_not_applicable(no public build steps)")
+        return
+    M0, B0, _ = probe_maps(ctx, scr, gen, need_B=False)
+    wit = {"variant": variant, "nx": nx, "pixel_scale": ps, "r0": r0, "L0": L0, "columns_or_length_factor": extra}
+    ctx.case("rederived:" + variant, key=("rederived", variant, nx, ps, r0, L0, extra), nontrivial=True, sample=wit)
+    for rep in range(2):
+        try:
+            for m in steps:
+                m()
+        except (linalg.LinAlgError, np.linalg.LinAlgError):
+            ctx.count("rederivation_raising_LinAlgError")
+            return
+        except TypeError:
+            ctx.count("rederivation_not_applicable(build steps take arguments)")
+            return
+        M1, B1, _ = probe_maps(ctx, scr, gen, need_B=False)
+        ctx.count("rederivations_observed")
+        sm = float(np.abs(M0).max())
+        ctx.close("M_after_rederivation", M1, M0, 1e-7 * sm, "rederived_object:row_map_changed:" + variant, dict(wit, repetition=rep + 1), scale=sm)
+        if B0 is not None and B1 is not None:
+            sb = float(np.abs(B0 @ B0.T).max())
+            ctx.close("BBt_after_rederivation", B1 @ B1.T, B0 @ B0.T, 1e-7 * sb, "rederived_object:innovation_covariance_changed:" + variant,
+                      dict(wit, repetition=rep + 1), scale=sb)
+
+
 def run(ctx, spec):
     import aotools
     from scipy import linalg
@@ -336,3 +372,4 @@ def run(ctx, spec):
             tiny = int(rng.integers(1, 5)) if variant == "vk" else int(rng.integers(2, 5))
             check_screen(ctx, aotools, variant, tiny, ps, r0, L0, int(rng.integers(1, 4)) if variant == "vk" else 1, rng, "tiny_screen")
             check_innovations_fresh(ctx, aotools, variant, min(nx, 17), ps, r0, L0, extra, rng)
+            check_rederived(ctx, aotools, variant, min(nx, 12), ps if ps > 1e-3 * L0 else 1e-2 * L0, r0, L0, extra, rng)
